@@ -12,7 +12,8 @@ ID = "C19"
 LEVEL = "exploration"
 RULE = ("base = generated FileSpec (versions 1.2/2.0, optional ~P and custom section, conformant items) or an example "
         "file; 1..5 junk lines (random printable ASCII, or adversarial: only punctuation, '.', ':', '..', quotes, 300+ "
-        "characters, data-like rows, tabs, percent/brace/backslash sequences) inserted at any position of ~V, ~W, ~P "
+        "characters, data-like rows, tabs, percent/brace/backslash sequences, STRT/STOP/STEP names with units of punctuation "
+        "in files that lack those items) inserted at any position of ~V, ~W, ~P "
         "and custom sections (never ~C); lines that start with '~' or whose parsed name is VERS/WRAP/DLM/NULL are "
         "excluded (counted). Oracle with ignore_header_errors=True: no exception; a line with neither '.' nor ':' "
         "yields a warning record naming it and no item; the genuine items of every section are an order-preserving "
@@ -42,6 +43,8 @@ ADVERSARIAL = [
     # parsable lines whose unit is an (empty) bracket pair or nested brackets: bracket stripping runs after the regex step
     "X.[] 1 : empty brackets", "X.() : empty parentheses", ".[]", ".() :", "Y.[[]] : nested", "Z.(()) 5", "B.[(m)] 2 : twice wrapped",
     "x" * 5000, "LONG." + "y" * 6000 + " : z", "L2. 1 : " + "d" * 9000, ("w " * 3000).strip(),
+    # index-item names with units made of punctuation: a file that lacks the genuine item takes these lines as STRT/STOP/STEP
+    "STEP.( 0.5 : (", "STOP.[ 1 : [", "strt.+ + : +", "STEP.*m 1", "Stop.m) 2 : x", "STRT.\\ 1", "STEP.?? : ??", "STRT.(?P<x> 5",
     "B.[ ] 3", "B.( ) : blank inside", "Q.[ : half open", "Q.) 4 : half closed", "q7.%% @ : &&junk", "U.[m 5 : x", "U.m] 5 : x",
 ]
 
@@ -269,6 +272,10 @@ def cases(draw):
     secs = [lastext.section("V", "~Version", [lastext.item("VERS", "", "1.2" if v12 else "2.0", "v"), lastext.item("WRAP", "", "NO", "w")])]
     wl = [lastext.item("STRT", "M", "1", "start"), lastext.item("STOP", "M", "2", "stop"), lastext.item("STEP", "M", "1", "step"),
           lastext.item("NULL", "", "-999.25", "null")]
+    # files without a STRT, STOP or STEP item exist (irregular sampling, sample_TVD.las): a junk line of that name is then
+    # the only item of that name
+    lack = draw(st.sampled_from([(), (), (), (2,), (1, 2), (0, 1), (0, 1, 2)]))
+    wl = [x for i, x in enumerate(wl) if i not in lack]
     wl += draw(st.lists(S.item_line(kind="W", v12=v12), max_size=3))
     # terse genuine lines (no period, or no colon): fields that are absent from the line must stay empty
     TERSE = ["HOLE DIA :85.7", "PERM DAT :1", "DRILLED  :12/11/2010", "RUN.FT 12", "BS.MM 216", "LOGGER : J SMITH", "TD.M", "KB. 12.5"]
